@@ -369,9 +369,15 @@ impl World {
         let kpstore = SimKpStore::new(sql, faults.clone());
         let pskstore = SimPskStore::new(faults.clone());
         let identity = SimIdentity::default();
+        if self.cfg.knob("banned").is_some() {
+            // the application's identity policy is the same on every device: the last party's credential is refused
+            let name = format!("P{}", self.cfg.n_parties - 1).into_bytes();
+            identity.ctl.lock().unwrap().reject.insert(name);
+        }
         let rules = SimRules::default();
         {
             let mut r = rules.cfg.lock().unwrap();
+            r.custom_needs_path = self.cfg.knob("custom-path").unwrap_or(1) == 1;
             let mut eo = EncryptionOptions::default();
             eo.encrypt_control_messages = self.cfg.encrypt_handshake;
             r.encrypt = eo;
@@ -855,6 +861,22 @@ impl World {
             None
         };
         let extra = crate::oracles::commit_extras(self, p, g, spec)?;
+        // inputs of by-value templates with a known violation (C10)
+        let own_index = self.parties[p].mems[g].group.as_ref().unwrap().current_member_index();
+        let group_suite = self.suite;
+        let tmpl_victim = self.groups[g]
+            .members
+            .get(&epoch)
+            .and_then(|m| m.iter().find(|(q, _)| **q != p).map(|(_, i)| *i));
+        let mut tmpl_kp = None;
+        for (t, q) in &spec.templates {
+            if matches!(t, 5 | 8) && *q < self.parties.len() {
+                let st = self.mem(*q, g).status.clone();
+                if matches!(st, Status::Never) {
+                    tmpl_kp = self.gen_key_package(*q)?;
+                }
+            }
+        }
         let pre = crate::oracles::before_op(self, p, g, "commit")?;
         crypto::rec_set_phase(self.step_no as u64);
         let _ = crypto::rec_take_events();
@@ -902,6 +924,40 @@ impl World {
             if let Some((sk, id)) = new_id.clone() {
                 b = b.set_new_signing_identity(sk, id);
             }
+            for (t, _q) in &spec2.templates {
+                match t {
+                    1 => b = b.remove_member(own_index)?,
+                    2 => {
+                        if let Some(idx) = tmpl_victim {
+                            b = b.remove_member(idx)?.remove_member(idx)?;
+                        } else {
+                            b = b.remove_member(own_index)?;
+                        }
+                    }
+                    3 => {
+                        b = b
+                            .add_external_psk(mls_rs::psk::ExternalPskId::new(vec![b'k', 0]))?
+                            .add_external_psk(mls_rs::psk::ExternalPskId::new(vec![b'k', 0]))?;
+                    }
+                    4 => b = b.add_external_psk(mls_rs::psk::ExternalPskId::new(vec![b'k', 99]))?,
+                    5 | 8 => {
+                        if let Some(kp) = &tmpl_kp {
+                            b = b.add_member(MlsMessage::from_bytes(kp)?)?;
+                            if *t == 5 {
+                                b = b.add_member(MlsMessage::from_bytes(kp)?)?;
+                            }
+                        } else {
+                            b = b.remove_member(own_index)?;
+                        }
+                    }
+                    _ => {
+                        // re-init mixed with another proposal
+                        b = b
+                            .reinit(None, mls_rs::ProtocolVersion::MLS_10, group_suite, Default::default())?
+                            .remove_member(own_index)?;
+                    }
+                }
+            }
             b = b.authenticated_data(aad.clone()).commit_time(now);
             if spec2.detached {
                 b.build_detached().map(|(o, s)| (o, Some(s)))
@@ -920,10 +976,21 @@ impl World {
                 let cls = err_class(&e);
                 self.ev(format!("commit P{p} g{g} e{epoch} err {cls}"));
                 self.stats.result(&format!("commit:err:{cls}"));
+                for t in &spec.templates {
+                    *self.stats.probes.entry(format!("by-value-template-refused:{}:{cls}", t.0)).or_default() += 1;
+                }
                 crate::oracles::after_failed_op(self, p, g, "commit", &cls, pre, Some(spec))?;
                 Ok(true)
             }
             Ok((out, secrets)) => {
+                if !spec.templates.is_empty() {
+                    return Err(Violation::new(
+                        &prop,
+                        "invalid-by-value-never-committed",
+                        format!("invalid-by-value-committed:{:?}", spec.templates.iter().map(|t| t.0).collect::<Vec<_>>()),
+                        format!("P{p} built a commit although its by-value proposals violate a proposal rule (templates {:?})", spec.templates),
+                    ));
+                }
                 let id = self.new_msg_id();
                 let bytes = out.commit_message.to_bytes().map_err(|e| {
                     Violation::new(&prop, "codec", "to_bytes".into(), format!("{e:?}"))
@@ -1358,6 +1425,8 @@ impl World {
                 self.deliver_one(p, g, r, true)?;
             }
         }
+        let cache_now = self.parties[p].mems[g].cached.clone();
+        self.ext.c10_cache_at_process.insert((p, cid), cache_now);
         let own = msg.sender == p && !msg.external;
         if own {
             // a commit built with build_detached is applied from the detached secrets
